@@ -60,6 +60,10 @@ pub enum Probe {
     FrameBufNew { ch: usize, size: usize },
     /// FrameBuf fill of `len` interleaved values into a buffer of (ch, size); bytes_per_sample 0 = integer fill
     FrameBufFill { ch: usize, size: usize, len: usize, bytes_per_sample: usize },
+    /// a (ch, 64) buffer, optionally filled completely, then `FrameBuf::resize(new_size)`, then optionally a
+    /// fill of `fill` inter-channel samples (usize::MAX = none; bytes_per_sample 0 = integer fill), then
+    /// encode_fixed_size_frame: the frame-level entry point sees a block size chosen through the buffer
+    FrameBufResized { ch: usize, prefill: bool, new_size: usize, fill: usize, bytes_per_sample: usize },
     ContextNew { bps: usize, ch: usize },
     /// Context fill: declared bps, bytes per sample used in the call (0 = integer fill), number of values
     ContextFill { bps: usize, ch: usize, len: usize, bytes_per_sample: usize },
@@ -165,6 +169,27 @@ pub fn expectation(p: &Probe) -> Expect {
                 Expect::NoPanic
             } else {
                 Expect::MustOk
+            }
+        }
+        Probe::FrameBufResized { new_size, fill, prefill, .. } => {
+            if *fill == usize::MAX && *prefill {
+                // what a resize leaves of an earlier fill is not specified: an empty buffer cannot
+                // hold a block, otherwise only "no panic"
+                return if *new_size == 0 { Expect::MustErr } else { Expect::NoPanic };
+            }
+            // the block the frame-level entry point is asked to encode
+            let filled = if *fill == usize::MAX { 0 } else { (*fill).min(*new_size) };
+            if *fill != usize::MAX && *fill > *new_size {
+                // more samples than the buffer holds
+                Expect::MustErr
+            } else if filled == 0 || filled > 32767 {
+                // a block size of 0 or above 32767: outside the supported domain whatever the path
+                Expect::MustErr
+            } else if (32..=32767).contains(new_size) && filled == *new_size {
+                Expect::MustOk
+            } else {
+                // short blocks (a last block) and buffers smaller than 32: no panic
+                Expect::NoPanic
             }
         }
         Probe::ContextNew { bps, ch } => {
@@ -335,6 +360,26 @@ pub fn execute(p: &Probe) -> Outcome {
                 }
                 Ok(())
             }
+            Probe::FrameBufResized { ch, prefill, new_size, fill, bytes_per_sample } => {
+                let mut fb = FrameBuf::with_size(*ch, 64).map_err(|e| format!("setup: {e:?}"))?;
+                if *prefill {
+                    fb.fill_interleaved(&ramp(64 * ch, 8)).map_err(|e| format!("setup: {e:?}"))?;
+                }
+                fb.resize(*new_size);
+                if *fill != usize::MAX {
+                    let data = ramp(fill * ch, 8);
+                    let r = if *bytes_per_sample == 0 { fb.fill_interleaved(&data) } else { fb.fill_le_bytes(&to_le_bytes(&data, 8 * *bytes_per_sample), *bytes_per_sample) };
+                    r.map_err(|e| format!("{e:?}"))?;
+                }
+                let info = StreamInfo::new(44100, *ch, 16).map_err(|e| format!("setup: {e:?}"))?;
+                let f = flacenc::encode_fixed_size_frame(&cfg(false), &fb, 0, &info).map_err(|e| format!("{e:?}"))?;
+                // an accepted block is encoded with its own size, not with a truncation of it
+                let want = if *fill == usize::MAX { fb.filled_size() } else { *fill };
+                if f.block_size() != want {
+                    return Err(format!("silently reinterpreted: {} samples encoded as a block of {}", want, f.block_size()));
+                }
+                Ok(())
+            }
             Probe::ContextNew { bps, ch } => {
                 let _ = Context::new(*bps, *ch);
                 Ok(())
@@ -372,6 +417,7 @@ fn kind(p: &Probe) -> &'static str {
         Probe::StreamInfoNew { .. } => "StreamInfo::new",
         Probe::FrameBufNew { .. } => "FrameBuf::with_size",
         Probe::FrameBufFill { .. } => "FrameBuf::fill",
+        Probe::FrameBufResized { .. } => "encode_fixed_size_frame(resized FrameBuf)",
         Probe::ContextNew { .. } => "Context::new",
         Probe::ContextFill { .. } => "Context::fill",
     }
@@ -562,6 +608,21 @@ pub fn probes() -> Vec<Probe> {
             for len in lens {
                 for bytes_per_sample in 0..=5usize {
                     v.push(Probe::FrameBufFill { ch, size, len, bytes_per_sample });
+                }
+            }
+        }
+    }
+    // block sizes reaching the frame-level entry point through FrameBuf::resize
+    for ch in [1usize, 2] {
+        for new_size in [0usize, 1, 16, 31, 32, 63, 64, 65, 4096, 32767, 32768, 40000, 65535, 65536, 65536 + 64] {
+            for prefill in [false, true] {
+                for fill in [usize::MAX, 0, 1, new_size / 2, new_size, new_size + 1] {
+                    for bytes_per_sample in [0usize, 1] {
+                        if fill == usize::MAX && bytes_per_sample != 0 {
+                            continue;
+                        }
+                        v.push(Probe::FrameBufResized { ch, prefill, new_size, fill, bytes_per_sample });
+                    }
                 }
             }
         }
